@@ -168,7 +168,7 @@ def _dead_top_imports(text):
 class C04(Prop):
     id = "C04"
     driver = "Blocks"
-    lean_modules = ["Pfb.C04.Props", "Pfb.C04.NoUnusedLeft"]
+    lean_modules = ["Pfb.C04.Props", "Pfb.C04.NoUnusedLeft", "Pfb.C04.KeepsMissing"]
     theorems = [
         "Pfb.C04.C04_never_guesses",
         "Pfb.C04.C04_unique_added",
@@ -184,6 +184,12 @@ class C04(Prop):
         "Pfb.C04.witness_builtins_checker",
         "Pfb.C04.witness_same_line",
         "Pfb.C04.witness_registry_none",
+        # removing the reported imports creates no new missing name, and (with C05's soundness / precision) a program that
+        # ran without NameError still does after the remove stage
+        "Pfb.C04.C04_removal_keeps_missing_fragB",
+        "Pfb.C04.C04_tidy_remove_stage_safe_fragB",
+        "Pfb.C04.keeps_missing_core",
+        "Pfb.C04.witness_builtins_value",
     ]
     anchors = [
         ("lib/python/pyflyby/_imports2s.py", "fix_unused_and_missing_imports"),
